@@ -71,6 +71,7 @@ type TraceRec struct {
 	Size   *int64   `json:"size"`
 	Paths  []string `json:"paths"`
 	Crash  string   `json:"crash"`
+	RootDirSize *int64 `json:"root_dir_size"`
 }
 
 type Case struct {
@@ -184,6 +185,8 @@ func (c *Case) Run(o RunOpts) *RunResult {
 	if !o.NoTrace {
 		env = append(env, "VERIF_TRACE="+c.TracePath)
 	}
+	os.MkdirAll(filepath.Join(c.Dir, "snap"), 0755)
+	env = append(env, "VERIF_SNAPSHOT_DIR="+filepath.Join(c.Dir, "snap"))
 	if o.Delays != "" {
 		env = append(env, "VERIF_DELAYS="+o.Delays)
 	}
@@ -360,6 +363,21 @@ func (c *Case) Canon(s string) string {
 }
 
 func StripUniq(s string) string { return uniqRe.ReplaceAllString(s, "") }
+
+// PrePostprocessOuts returns the top-level _outs as it was just before
+// post-processing (hook snapshot), or nil.
+func (c *Case) PrePostprocessOuts() interface{} {
+	m, _ := filepath.Glob(filepath.Join(c.Dir, "snap", "pre_postprocess.*"))
+	if len(m) == 0 {
+		return nil
+	}
+	sort.Strings(m)
+	v, err := ReadJSON(m[len(m)-1])
+	if err != nil {
+		return nil
+	}
+	return v
+}
 
 // ReadJSON reads a JSON file with UseNumber.
 func ReadJSON(p string) (interface{}, error) {
